@@ -445,9 +445,9 @@ def run_history(seed):
             elif ev == 'fail_pool':
                 fail_pool[a] = fail_pool.get(a, 0) + (arg or rng.choice([1, 1, 2]))
             elif ev == 'advance':
-                w.settle(until=w.now + (arg or rng.choice([0.3, 1.1, 2.5])))
+                w.advance_to(w.now + (arg or rng.choice([0.3, 1.1, 2.5])))
             elif ev == 'advance_long':
-                w.settle(until=w.now + rng.choice([4.0, 7.0]))
+                w.advance_to(w.now + rng.choice([4.0, 7.0]))
             if script is None and rng.random() < 0.75 or ev == 'settle':
                 w.settle(advance=False)
                 check('after event %d %s %s' % (step, ev, a))
@@ -619,7 +619,8 @@ def run(ctx):
     shim.import_cluster()
     from vlib.run import Inconclusive
     from sim.world import WorldLimit, WorldHang
-    ctx.rule = ("a case is one seeded history: 2-3 nodes, 0-2 sessions, protocol v4/v3/v2, reconnection schedule (unbounded / 2 attempts), 4-14 events from "
+    ctx.rule = ("a case is one seeded history from three families (random events / a host removed while a reconnection attempt for it is mid-connect, "
+                "plain and host-addition reconnector / repeated down-up cycles with 2-3 sessions under priority schedules): 2-3 nodes, 0-3 sessions, protocol v4/v3/v2, reconnection schedule (unbounded / 2 attempts), 4-14 events from "
                 "{pool connection reset, node crash, node back, STATUS_CHANGE UP/DOWN, TOPOLOGY_CHANGE REMOVED_NODE/NEW_NODE, hide/show in system.peers + "
                 "refresh, next pool connection fails, time passes}, schedule; distinct by event-order signature of the world trace; non-trivial = at "
                 "least one reconnection handler was scheduled")
@@ -663,4 +664,4 @@ def run(ctx):
             ctx.sample({"seed": seed, "events": info['events'], "notifications": info['notes'][-16:], "counters": counters})
     ctx.floor_distinct = 40 if ctx.quick else 1500
     ctx.floor_counters = {"histories": 40, "quiescent_checks": 200, "down_host_checks": 30, "handlers_seen": 30, "reconnector_conns": 30, "final_pools": 30,
-                          "notifications": 200}
+                          "notifications": 200, "removals_while_an_attempt_was_mid_connect": 5, "on_up_with_2plus_sessions": 50}
